@@ -113,6 +113,8 @@ func (llm *LogListManager) RefreshLogList(ctx context.Context) (*LogListData, er
 // ProduceClientLogList applies client filtration on Log list.
 func (llm *LogListManager) ProduceClientLogList() LogListData {
 	// TODO(Mercurrent): Add filtration
+	llm.mu.Lock()
+	defer llm.mu.Unlock()
 	clientLL := *(llm.latestLL)
 	return clientLL
 }
